@@ -272,9 +272,12 @@ where
                 }
                 out
             })
-            .join("\n");
+            .collect::<Vec<_>>();
 
-        Ok(format!("{}\n{body}\n", self.size))
+        // One line for the size, then one line per taxon: an empty matrix has no row at all
+        let mut lines = vec![self.size.to_string()];
+        lines.extend(body);
+        Ok(lines.join("\n") + "\n")
     }
 
     /// Writes the matrix to a phylip file
